@@ -38,8 +38,50 @@ def check(repo, col, tier):
     _write_back(repo, col)
     _pair(repo, col)
     _tojax(repo, col)
+    col.rule("R-C10-init", "the default initial value of a trainable ignores the padded dummy entries", 1)
+    _init_value(repo, col)
     col.rule("R-C10-derived", "derived parameters are computed from the overridden values", 1)
     derived_after_overrides(repo, col, "R-C10-derived")
+
+
+def _init_value(repo, col):
+    """make_trainable pads groups of unequal size with the index -1, whose (dummy) row holds NaN.  The default initial
+    value of a shared parameter is the mean of the CURRENT values of its group: it must be reduced with a NaN-aware
+    reduction (or an explicit mask), otherwise every group smaller than the largest one starts at NaN instead of at the
+    value that set() put there."""
+    R = "R-C10-init"
+    fi = repo.method("Module", "make_trainable")
+    ex = idx.expander(repo, fi)
+    st = [s_ for s_ in ex.stores if s_.kind == "mcall" and s_.key.name == "append" and s_.base.op == "attr" and s_.base.name == "trainable_params"]
+    if not st:
+        raise AnalysisError("make_trainable no longer appends to trainable_params")
+    v = st[0].value
+    NAN_AWARE = {"nanmean", "nanmedian", "nanmax", "nanmin", "nansum"}
+    PLAIN = {"mean", "median", "average", "sum", "max", "min", "amax", "amin", "prod"}
+    def value_walk(t):
+        """the value itself, not the index expressions it was gathered with"""
+        yield t
+        if t.op == "sub":
+            yield from value_walk(t.args[0])
+            return
+        if t.op == "comp":
+            yield from value_walk(t.args[0])
+            return
+        if t.op in ("call", "mcall") and t.name in ("len", "range", "pad", "arange"):
+            return
+        for a_ in list(t.args) + list(t.kw.values()):
+            yield from value_walk(a_)
+    reds = [x for x in value_walk(v) if x.op == "mcall" and x.name in NAN_AWARE | PLAIN]
+    pads = any(x.op == "mcall" and x.name == "pad" for x in v.walk()) or "constant_values=-1" in unparse(fi.node) or "-1" in unparse(fi.node)
+    if not reds:
+        col.unk(R, fi, "default initial value of a new trainable", f"no reduction over the group's current values found in {v.short(100)}", node=st[0].node)
+        return
+    for r_ in reds:
+        masked = T.find(r_, lambda y: y.op == "mcall" and y.name in ("isnan", "where", "nan_to_num")) is not None
+        col.check(r_.name in NAN_AWARE or masked, R, fi, f"default initial value: `{r_.name}` over the padded group values is NaN-aware",
+                  "jnp.nanmean(param_vals, axis=1)",
+                  f"the default initial value is `{r_.short(70)}`: groups smaller than the largest are padded with the dummy row (NaN), so a plain "
+                  f"`{r_.name}` makes their initial trainable value NaN instead of the value currently set", node=st[0].node)
 
 
 def derived_after_overrides(repo, col, R):
@@ -231,7 +273,7 @@ def scatter_sites(repo, col, cl, R, RS):
                 arr_node = n.func.value.value.value
                 keyt = ex.term(arr_node.slice)
                 arr = T("sub", None, [T("param", "states"), keyt])
-                ix = ex.term(n.func.value.slice)
+                ix = idx.inline(repo, fi, ex.term(n.func.value.slice))  # helpers that produce the index are looked through
                 for kc in idx.KCS:
                     d = cl.domain(arr, kc)
                     raw, remapped = _strip_drop_remap(ix, n, ex.term(arr_node))
